@@ -108,7 +108,8 @@ def run_lockstep(pid, tier, slices=None, write_evidence=True):
         for f in r['findings']:
             v = {'property': pid, 'machine': r['zoo'], 'cfg': f['peers'][1], 'kind': f['kind'], 'msg': f['msg'], 'peers': f['peers'],
                  'history': f['history'], 'raw': f['raw'], 'classes': f['classes'], 'lockstep': True, 'model_flags': [],
-                 'pre_pending': f.get('pre_pending', []), 'pre_config': f.get('pre_config', ()), 'post_configs': f.get('post_configs', [])}
+                 'pre_pending': f.get('pre_pending', []), 'pre_config': f.get('pre_config', ()), 'post_configs': f.get('post_configs', []),
+                 'engine': 'lockstep', 'slice_def': slices[r['slice']], 'tier': tier}
             k = known.match(kf, v, z)
             if k is not None:
                 known_seen[k['id']] += 1
@@ -228,7 +229,7 @@ def _retag(raw, frm, to, smap):
 def copy_job(job):
     pid, sl, cfg, tier, idx = job
     t0 = time.time()
-    out = {'zoo': sl['zoo'], 'cfg': cfg, 'findings': [], 'stats': collections.Counter(), 'samples': []}
+    out = {'zoo': sl['zoo'], 'cfg': cfg, 'findings': [], 'stats': collections.Counter(), 'samples': [], 'slice_def': sl}
     peer = None
     try:
         ser = sl.get('serialize', False)
@@ -445,7 +446,8 @@ def run_copy(pid, tier):
         shown = 0
         extra = r['stats'].get('divergent', 0) - len(r['findings'])
         for f in r['findings']:
-            v = {'property': pid, 'machine': r['zoo'], 'cfg': r['cfg'], 'kind': f['kind'], 'msg': f['msg'], 'history': f['history'], 'copymode': True, 'model_flags': [], 'pending_at_copy': f['pending_at_copy']}
+            v = {'property': pid, 'machine': r['zoo'], 'cfg': r['cfg'], 'kind': f['kind'], 'msg': f['msg'], 'history': f['history'], 'copymode': True, 'model_flags': [], 'pending_at_copy': f['pending_at_copy'],
+                 'engine': 'copy', 'slice_def': r['slice_def'], 'tier': tier}
             k = known.match(kf, v, z)
             if k is not None:
                 known_seen[k['id']] += 1
@@ -595,7 +597,7 @@ def run_storage(pid, tier):
                 reported += 1
                 path = os.path.join(rdir, f'{pid}-{r["be"]}-{reported}.json')
                 with open(path, 'w') as fh:
-                    json.dump({'property': pid, 'backend': r['be'], 'type': r['type'], 'finding': b, 'sanitizer': r['sanitizer'],
+                    json.dump({'property': pid, 'engine': 'storage', 'backend': r['be'], 'type': r['type'], 'san': r.get('san', 'asan'), 'finding': b, 'sanitizer': r['sanitizer'],
                                'replay': f'{r["exe"]} 0 --replay "Evt<{r["type"][0]},{r["type"][1]},{r["type"][2]}>" <operation names as listed>'}, fh, indent=1)
                 print(f'VIOLATION property={pid} replay={path}')
                 print(f'  {r["be"]} {b[:500]}')
@@ -678,7 +680,7 @@ def run_frontends(pid, tier):
     for i, b in enumerate(tkbad[:MAX_REPORTED]):
         path = os.path.join(rdir, f'{pid}-tokenizer-{i + 1}.json')
         with open(path, 'w') as fh:
-            json.dump({'property': pid, 'part': 'tokenizer', 'finding': b, 'replay': f'{tk} {" ".join(str(a) for a in args)}'}, fh, indent=1)
+            json.dump({'property': pid, 'engine': 'tokenizer', 'part': 'tokenizer', 'finding': b, 'args': list(args), 'replay': f'{tk} {" ".join(str(a) for a in args)}'}, fh, indent=1)
         print(f'VIOLATION property={pid} replay={path}')
         print(f'  tokenizer: {b[:500]}')
     # (c) compile-time batch: guard expression trees and state attribute lines
@@ -699,7 +701,7 @@ def run_frontends(pid, tier):
     for i, b in enumerate(gbad[:MAX_REPORTED]):
         path = os.path.join(rdir, f'{pid}-guards-{i + 1}.json')
         with open(path, 'w') as fh:
-            json.dump({'property': pid, 'part': 'guard-batch', 'finding': b, 'replay': ge}, fh, indent=1)
+            json.dump({'property': pid, 'engine': 'guard-batch', 'part': 'guard-batch', 'finding': b, 'replay': ge}, fh, indent=1)
         print(f'VIOLATION property={pid} replay={path}')
         print(f'  guard batch: {b[:500]}')
     cov = ls['coverage']
@@ -724,3 +726,77 @@ def run_frontends(pid, tier):
 
 
 RUNNERS['frontends'] = run_frontends
+
+
+# =================================================================================================
+def _norm_hist(h):
+    return [[o, int(e), {k: int(v) for k, v in dict(l).items()}] for o, e, l in h]
+
+
+def replay(pid, path):
+    """replay a violation of one of the custom engines: the slice it came from is explored again (they are small) and the
+    recorded finding is looked up by kind and history; for the storage harness the recorded operation sequence is run.
+    exit 1 = still reproduces, 0 = behaviour differs from the recorded violation"""
+    with open(path) as fh:
+        v = json.load(fh)
+    eng = v.get('engine')
+    if eng == 'storage':
+        import subprocess
+        import re
+        typ = tuple(v['type'])
+        exe = st_build((v['backend'], typ, v.get('san', 'asan')))
+        m = re.match(r'(Evt<[^>]*>): (.*?) =>', v['finding'])
+        if not m:
+            print('the recorded finding names no operation sequence (sanitizer report of a whole run): re-running the type')
+            r = st_run((v['backend'], typ, 4, v.get('san', 'asan')))
+            print('  ', r['bad'][:2], r['sanitizer'][:300])
+            return 1 if (r['nbad'] or r['sanitizer']) else 0
+        env = dict(os.environ, ASAN_OPTIONS='halt_on_error=0:detect_leaks=1:exitcode=23', UBSAN_OPTIONS='print_stacktrace=0:halt_on_error=0', MSAN_OPTIONS='exitcode=24')
+        r = subprocess.run([exe, '0', '--replay', m.group(1)] + m.group(2).split(), capture_output=True, text=True, env=env)
+        print(f'{v["backend"]} {m.group(1)}: {m.group(2)}')
+        print('  ', (r.stdout.strip() or '-')[:600])
+        san = [l for l in r.stderr.split('\n') if 'Sanitizer' in l or 'runtime error' in l]
+        if san:
+            print('  ', san[0][:400])
+        return 1 if (r.returncode != 0 or san) else 0
+    if eng in ('tokenizer', 'guard-batch'):
+        import subprocess
+        if eng == 'tokenizer':
+            exe = _puml_build('puml_tokenizer', os.path.join(VERIF, 'puml', 'tokenizer.cpp'))
+            r = subprocess.run([exe] + [str(a) for a in v.get('args', [2, 3])], capture_output=True, text=True)
+        else:
+            gsrc = os.path.join(vbuild.cache_dir(), 'puml_guards.cpp')
+            g = subprocess.run([sys.executable, os.path.join(VERIF, 'puml', 'gen_guards.py')], capture_output=True, text=True)
+            with open(gsrc, 'w') as fh:
+                fh.write(g.stdout)
+            r = subprocess.run([_puml_build('puml_guards', gsrc, opt='-O0')], capture_output=True, text=True)
+        hit = [l for l in r.stdout.split('\n') if l.startswith('BAD ') and l[4:] == v['finding']]
+        print((hit[0] if hit else 'the recorded input is handled correctly now: ' + v['finding'])[:600])
+        return 1 if hit else 0
+    sl = v['slice_def']
+    want = (v['kind'], _norm_hist(v['history']))
+    if eng == 'lockstep':
+        pairs = [(zn, cfg) for zn, cfg in sl['peers']] if 'peers' in sl else [(sl['zoo'], cfg) for cfg in sl['cfgs']]
+        vbuild.build_many(sorted(set(pairs)))
+        r = lockstep_job((pid, sl, v.get('tier', 'quick'), 0))
+    elif eng == 'copy':
+        if sl.get('serialize'):
+            vbuild.build_one(sl['zoo'], v['cfg'], ('-DVF_SERIALIZE',), '_ser', ('-lboost_serialization',))
+        else:
+            vbuild.build_one(sl['zoo'], v['cfg'])
+        r = copy_job((pid, sl, v['cfg'], v.get('tier', 'quick'), 0))
+    else:
+        print('unknown engine in ' + path)
+        return 2
+    if 'error' in r:
+        print(r['error'])
+        return 2
+    for f in r['findings']:
+        if (f['kind'], _norm_hist(f['history'])) == want:
+            print(f'{v["machine"]}: history {f["history"]}')
+            print(f'  finding: {f["kind"]} - {f["msg"][:1200]}')
+            for k, t in (f.get('raw') or {}).items():
+                print(f'  trace of {k}: {t[:600]}')
+            return 1
+    print(f'the slice was explored again ({r["stats"]}); no finding of kind {v["kind"]} for the recorded history')
+    return 0
